@@ -108,4 +108,12 @@ def check_report(outcome, world_files, dry_run=False, sast_ids=None):
                     for f in ch.get("findings") or []:
                         if not f.get("id") or not (f.get("rule") or {}).get("id") or not (f.get("rule") or {}).get("name"):
                             problems.append(("finding-without-identifiers", {"codemod": cid}))
+            for uf in res.get("unfixedFindings") or []:
+                up = uf.get("path", "")
+                if not (uf.get("rule") or {}).get("id") or not uf.get("id"):
+                    problems.append(("finding-without-identifiers", {"codemod": cid, "unfixed": True}))
+                # an unfixed finding names the project file it was reported for (the file may have vanished meanwhile)
+                if os.path.isabs(up) or up.startswith("..") or "<S>" in up or (up not in world_files and up not in after_tree):
+                    problems.append(("unfixed-finding-path", {"codemod": cid, "path": up}))
+                    break
     return problems
